@@ -319,3 +319,10 @@ def x1(cx: Cx, ob: Ob) -> None:
     from .c10 import check_no_aliasing
 
     check_no_aliasing(cx, ob)
+
+
+@obligation("C07-X19", "expand_reference (shared with C02-D5), through which expand / expand_strict / expand_or_standardize answer: the URI is <the URI prefix prefix_map holds for the reference's prefix, as registered> + <the identifier, untouched> - anything else is a URI the same converter does not compress back", floor=1)
+def x19(cx: Cx, ob: Ob) -> None:
+    from .c02 import d5 as expand_reference_rule
+
+    expand_reference_rule.fn(cx, ob) if hasattr(expand_reference_rule, "fn") else expand_reference_rule(cx, ob)
